@@ -182,7 +182,7 @@ func driveETHPow(t *testing.T, in, out string, seed int64) {
 				c.SetTime(time.Unix(int64(real[2].Time)+3600, 0).UTC())
 			}
 			g := real[0].ToHeader()
-			cst := &ethtypes.ClientState{Header: g, ChainId: 1, ContractAddress: common.HexToAddress("0x1234").Bytes(), TrustingPeriod: 1_000_000_000}
+			cst := &ethtypes.ClientState{Header: g, ChainId: powChainID(str(cs["chain"])), ContractAddress: common.HexToAddress("0x1234").Bytes(), TrustingPeriod: 1_000_000_000}
 			cons := &ethtypes.ConsensusState{Timestamp: g.Time, Height: g.Height, Root: g.Root}
 			prop, err := clienttypes.NewCreateClientProposal("t", "d", name, cst, cons)
 			must(err)
@@ -215,7 +215,7 @@ func driveETHPow(t *testing.T, in, out string, seed int64) {
 			cs2, _ := c.App.XIBCKeeper.ClientKeeper.GetClientState(c.Ctx(), name)
 			headok := cs2 != nil && cs2.GetLatestHeight().GetRevisionHeight() == want.Height.RevisionHeight
 			tw.Emit(M{"ev": "Pow", "b": bi, "i": 0, "args": cs, "res": resOf(r), "msg": clip(r.Log), "stage": "real", "same": false, "headok": headok,
-				"sig": "Pow/real/" + str(cs["mut"]), "dg": M{"pre": pre, "post": c.Digest("xibc")}})
+				"sig": "Pow/real/" + str(cs["chain"]) + "/" + str(cs["mut"]), "dg": M{"pre": pre, "post": c.Digest("xibc")}})
 			continue
 		}
 		pd := big.NewInt(131072)
@@ -234,7 +234,7 @@ func driveETHPow(t *testing.T, in, out string, seed int64) {
 		parent := &ethtypes.Header{UncleHash: uh(cs["parentUncles"].(bool)), Coinbase: common.BytesToAddress([]byte("p")).Bytes(), Root: root, TxHash: make([]byte, 32),
 			ReceiptHash: make([]byte, 32), Bloom: make([]byte, 256), Difficulty: pd.Bytes(), Height: clienttypes.NewHeight(0, 100), GasLimit: 30_000_000, GasUsed: 15_000_000,
 			Time: base, Extra: []byte("parent"), MixDigest: make([]byte, 32), BaseFee: big.NewInt(7).Bytes(), ParentHash: make([]byte, 32)}
-		cst := &ethtypes.ClientState{Header: *parent, ChainId: 1, ContractAddress: common.HexToAddress("0x1234").Bytes(), TrustingPeriod: 1_000_000_000}
+		cst := &ethtypes.ClientState{Header: *parent, ChainId: powChainID(str(cs["chain"])), ContractAddress: common.HexToAddress("0x1234").Bytes(), TrustingPeriod: 1_000_000_000}
 		cons := &ethtypes.ConsensusState{Timestamp: parent.Time, Height: parent.Height, Root: parent.Root}
 		prop, err := clienttypes.NewCreateClientProposal("t", "d", name, cst, cons)
 		must(err)
@@ -415,4 +415,15 @@ func driveETHClient(t *testing.T, in, out string, seed int64) {
 				"res": resOf(r), "msg": clip(r.Log), "code": fmt.Sprintf("%s/%d", r.Codespace, r.Code), "dg": M{"pre": "", "post": c.Digest("xibc")}, "st": tree.project(c)})
 		}
 	}
+}
+
+// powChainID: the chain ids of the proof-of-work clients (every chain id but Rinkeby's 4 is one)
+func powChainID(class string) uint64 {
+	switch class {
+	case "ropsten":
+		return 3
+	case "private":
+		return 1337
+	}
+	return 1
 }
